@@ -378,6 +378,59 @@ func rulePUSHSTATE(c *Ctx, r *Report) {
 				}
 				break
 			}
+			if bo, isCmp := cond.(*ssa.BinOp); isCmp && (bo.Op == token.EQL || bo.Op == token.NEQ) {
+				// `switch p.decide(next) { case actionShift: …`: the verdict of the shift predicate read through a
+				// classifying helper — every path of the helper that returns this constant has asked the predicate
+				// about the helper's own parameter and got "shift"
+				if bo.Op == token.NEQ {
+					pol = !pol
+				}
+				if !pol {
+					return nil
+				}
+				var hc *ssa.Call
+				var k *ssa.Const
+				for _, side := range []ssa.Value{bo.X, bo.Y} {
+					if cl, isCall := side.(*ssa.Call); isCall && cl.Call.StaticCallee() != nil && inModule(cl.Call.StaticCallee()) {
+						hc = cl
+					}
+					if kc, isConst := side.(*ssa.Const); isConst {
+						k = kc
+					}
+				}
+				if hc == nil || k == nil {
+					return nil
+				}
+				g := hc.Call.StaticCallee()
+				vs := c.valueSummaryOf(g)
+				sets := vs.byConst[c.constName(k)]
+				if !vs.ok || len(sets) == 0 {
+					return nil
+				}
+				argIdx := -1
+				for _, set := range sets {
+					found := -1
+					for _, a := range set {
+						if a.Kind == "call" && a.Pos && a.Fn == pr.ShouldShift && len(a.Args) > 0 {
+							if prm, isP := c.resolve(a.Args[len(a.Args)-1], nil).(*ssa.Parameter); isP {
+								for i, gp := range g.Params {
+									if gp == prm {
+										found = i
+									}
+								}
+							}
+						}
+					}
+					if found < 0 || argIdx >= 0 && argIdx != found {
+						return nil
+					}
+					argIdx = found
+				}
+				if argIdx < 0 || argIdx >= len(hc.Call.Args) {
+					return nil
+				}
+				return []string{c.key(hc.Call.Args[argIdx], nil)}
+			}
 			call, ok := cond.(*ssa.Call)
 			if !ok || call.Call.StaticCallee() != pr.ShouldShift || !pol {
 				return nil
